@@ -559,11 +559,21 @@ impl<'a> Analysis<'a> {
 
     /// (cross-ring inversion = finding D2, same-ring inversion = commands of one thread reordered)
     pub fn inversion(&self, c: usize) -> (bool, bool) {
+        let (cross, same, _) = self.inversion3(c);
+        (cross, same)
+    }
+
+    /// third flag: a cross-ring inversion in which the ring of the earlier command was not even
+    /// visited by the cycle that consumed the later one. The pinned collector holds the registry
+    /// lock for the whole drain pass, so every ring that holds a command pushed before the pass
+    /// ended is visited by it: this shape is NOT the known finding D2.
+    pub fn inversion3(&self, c: usize) -> (bool, bool, bool) {
         let id = match self.collect_ids.get(&c) {
             Some(id) => *id,
-            None => return (false, false),
+            None => return (false, false, false),
         };
         let (mut cross, mut same) = (false, false);
+        let mut unvisited = false;
         let rel: Vec<&CmdFate> = self.cmds.iter().filter(|x| x.collects.contains(&id) && !x.lost).collect();
         for x in &rel {
             for y in &rel {
@@ -598,11 +608,16 @@ impl<'a> Analysis<'a> {
                         same = true;
                     } else {
                         cross = true;
+                        if let Some(cy) = y.cycle {
+                            if !self.cycles.get(cy).map(|k| k.drain_end.contains_key(&x.tid)).unwrap_or(true) {
+                                unvisited = true;
+                            }
+                        }
                     }
                 }
             }
         }
-        (cross, same)
+        (cross, same, unvisited)
     }
 
     pub fn op_executed(&self, o: usize) -> bool {
